@@ -1,0 +1,25 @@
+//! Read-only verification hooks (feature `verif-hooks`).
+use crate::map::node::Color;
+use crate::map::tree::MapTree;
+use crate::verif::VerifSnapshot;
+
+impl<K: Copy + Ord + Default, V: Clone + Default> MapTree<K, V> {
+    pub fn verif_snapshot(&self) -> VerifSnapshot {
+        VerifSnapshot {
+            root: self.root,
+            links: self.store.buffer.iter().map(|n| [n.parent, n.left, n.right]).collect(),
+            red: self.store.buffer.iter().map(|n| n.color == Color::Red).collect(),
+            unused: self.store.unused.clone(),
+        }
+    }
+
+    /// Key stored in `slot` (checked access; meaningful for slots that are part of the tree).
+    pub fn verif_key_at(&self, slot: u32) -> K {
+        self.store.buffer[slot as usize].entity.key
+    }
+
+    /// Value stored in `slot` (checked access; meaningful for slots that are part of the tree).
+    pub fn verif_val_at(&self, slot: u32) -> &V {
+        &self.store.buffer[slot as usize].entity.val
+    }
+}
